@@ -869,14 +869,16 @@ pub fn drivers_for(property: &str, thorough: bool) -> Vec<Driver> {
         }
         "C03" => {
             for fl in [Flavour::Global, Flavour::Async] {
-                let f = FUNCS.iter().find(|f| f.family == "conc" && f.flavour == fl && f.limit.is_none() && f.ttl.is_none() && f.mem.is_none()).unwrap();
-                push(format!("{}:same-key x2", f.fn_name), vec![], vec![vec![call(f, 1)], vec![call(f, 1)]], None, false);
-                push(format!("{}:same-key then again", f.fn_name), vec![], vec![vec![call(f, 1), call(f, 1)], vec![call(f, 1)]], None, false);
-                push(format!("{}:two keys crossing", f.fn_name), vec![], vec![vec![call(f, 1), call(f, 2)], vec![call(f, 2), call(f, 1)]], None, false);
-                push(format!("{}:same-key x3", f.fn_name), vec![], vec![vec![call(f, 1)], vec![call(f, 1)], vec![call(f, 1)]], None, false);
-                push(format!("{}:resident + newcomer", f.fn_name), vec![SOp::Op(call(f, 1))], vec![vec![call(f, 1), call(f, 2)], vec![call(f, 2), call(f, 1)]], None, false);
-                if thorough {
-                    push(format!("{}:3 threads 2 keys", f.fn_name), vec![], vec![vec![call(f, 1), call(f, 2)], vec![call(f, 2)], vec![call(f, 1)]], None, false);
+                for f in conc(fl).into_iter().filter(|f| f.limit.is_none() && f.ttl.is_none() && f.mem.is_none()) {
+                    push(format!("{}:same-key x2", f.fn_name), vec![], vec![vec![call(f, 1)], vec![call(f, 1)]], None, false);
+                    push(format!("{}:same-key then again", f.fn_name), vec![], vec![vec![call(f, 1), call(f, 1)], vec![call(f, 1)]], None, false);
+                    push(format!("{}:two keys crossing", f.fn_name), vec![], vec![vec![call(f, 1), call(f, 2)], vec![call(f, 2), call(f, 1)]], None, false);
+                    push(format!("{}:same-key x3", f.fn_name), vec![], vec![vec![call(f, 1)], vec![call(f, 1)], vec![call(f, 1)]], None, false);
+                    push(format!("{}:resident + newcomer", f.fn_name), vec![SOp::Op(call(f, 1))], vec![vec![call(f, 1), call(f, 2)], vec![call(f, 2), call(f, 1)]], None, false);
+                    if thorough {
+                        push(format!("{}:3 threads 2 keys", f.fn_name), vec![], vec![vec![call(f, 1), call(f, 2)], vec![call(f, 2)], vec![call(f, 1)]], None, false);
+                        push(format!("{}:same-key x3 then again", f.fn_name), vec![], vec![vec![call(f, 1), call(f, 1)], vec![call(f, 1)], vec![call(f, 1)]], None, false);
+                    }
                 }
             }
         }
